@@ -152,6 +152,7 @@ func init() {
 			},
 			func(c *Ctx) { c.ruleReflect("R-REFLECT", c.scopeData()); c.R.Floor("R-REFLECT", 10) },
 			func(c *Ctx) { c.ruleHashKey("R-HASHKEY", c.scopeData()); c.R.Floor("R-HASHKEY", 1) },
+			func(c *Ctx) { c.ruleTypedNil("R-TYPEDNIL", c.scopeData()) },
 			func(c *Ctx) { c.ruleDivZero("R-DIVZERO", c.scopeData()); c.R.Floor("R-DIVZERO", 1) },
 			func(c *Ctx) { c.ruleTerm("R-TERM", c.entryData(), false); c.R.Floor("R-TERM", 4) },
 			func(c *Ctx) { c.ruleMustCall("R-MUSTCALL", c.M.Reachable(append(c.entryLoad(), c.entryData()...), nil)) },
